@@ -54,10 +54,21 @@ func Panic(v ...interface{})                 { panic(fmt.Sprint(v...)) }
 func Panicf(format string, v ...interface{}) { panic(fmt.Sprintf(format, v...)) }
 func Panicln(v ...interface{})               { panic(fmt.Sprintln(v...)) }
 
+// FatalExit is what Fatal* panics with in a run without tasks (simrt.Inline) while a
+// world has set CatchFatal: the world that called a tool's main() recovers it and takes
+// it for "the process printed Msg and exited with status 1".
+type FatalExit struct{ Msg string }
+
+// CatchFatal is set by a world around its call of a main() under simrt.Inline.
+var CatchFatal bool
+
 func fatal(msg string) {
 	if simrt.Active() && simrt.Cur() != nil {
 		simrt.Emit("log-fatal", "", 0, msg)
 		simrt.Exit(1)
+	}
+	if simrt.Active() && CatchFatal {
+		panic(FatalExit{Msg: msg})
 	}
 	log.Fatal(msg)
 }
